@@ -16,6 +16,12 @@ CLASSES = {
  "KF-C01-two-calls": "two function results in one expression: the first result, returned in A, is not kept live across the second call",
  "KF-C01-deref-y": "*p in a statement whose other operand is indexed by Y (or is *p / p[Y] itself): the dereference loads Y with 0 after saving it in cctmp, and the saved index is restored too late or not at all",
  "KF-C01-opt-shift-mem": "R = s; s <<= 1 (or >>= 1); R = s at -O1: ASL/ROL/LSR/ROR on memory do not invalidate the optimiser's belief that the register holds s; the reload is removed (also C02)",
+ "KF-C01-postinc-in-condition": "a postfix ++ / -- inside the condition of if / while / do-while or the selector of a switch is postponed to the start of the next generated statement, which lies on only one of the paths: on the other path the variable is never updated (while (b--) leaves b one short, if (a++ == 3) increments a only when the test holds)",
+ "KF-C01-return-postfix": "return v++ / return arr[x]--: the postponed increment is emitted after the RTS (or after the jump to the end of an inlined body) and never happens; a callee that indexes an array by a parameter also leaves its scratch index in Y",
+ "KF-C01-pha-unbalanced": "x = (a op b) op (R | 0): the left result is pushed (PHA) while the right operand is computed, the folded R | 0 never pulls it: the stack is left unbalanced and RTS returns to a garbage address",
+ "KF-C01-else-flags-after-and": "if (p && q) ... else if (r): the else branch is entered from two jumps (p false, q false) but trusts the flags belief saved for only one of them: r is decided on stale flags",
+ "KF-C01-varindex-16": "an element of an array of shorts indexed by a variable (sarr[a] = v, <<=): the high byte is stored at the wrong place or not at all",
+ "KF-C01-varindex-8": "arr[b] = arr[R] / P[R] / ROM[R] (destination indexed by a variable, source by a register): loading the destination index clobbers the register the source still needs",
  "KF-C01-shift16-elem": "compound shift (<<=, >>=) of an element of an array of shorts with a constant or register index: only the low byte is shifted, the high byte is left unchanged",
  "KF-C01-stale-flags-shift16": "after a 16-bit shift statement the generator still believes the flags describe the previously tested variable; the following if/! uses stale flags",
 }
@@ -26,7 +32,7 @@ def classify(sig, fam):
         return "KF-C01-hi16"
     if fam == "F1a":
         return "KF-C01-reg-sub16"
-    if fam in ("F1c", "F2b"):
+    if fam in ("F1c", "F2b", "F7d"):
         return "KF-C01-test16-lowbyte"
     if fam == "F1e":
         return "KF-C01-postinc-index"
@@ -40,6 +46,18 @@ def classify(sig, fam):
         if re.search(r"(A8|ROM)\[R\] (<=|>=|==|!=|<|>) R", sig):
             return "KF-C01-cmp-elem-reg"
         return None
+    if fam in ("F5a", "F5b", "F5c", "F5d", "F6") and ("ri(" in sig or "rd2(" in sig):
+        return "KF-C01-return-postfix"
+    if fam == "F3e":
+        return "KF-C01-postinc-in-condition"
+    if fam == "F1n":
+        return "KF-C01-pha-unbalanced" if "(R | 0)" in sig else None
+    if fam == "F2d":
+        return "KF-C01-else-flags-after-and"
+    if fam == "F9" and sig.startswith("A16[u8]"):
+        return "KF-C01-varindex-16"
+    if fam == "F9" and sig.startswith("A8[u8]"):
+        return "KF-C01-varindex-8"
     if fam == "F5b":
         return "KF-C01-two-calls"
     if fam == "F9":
